@@ -13,11 +13,14 @@ def subsets(Q):
             yield set(c)
 
 
-def check_dfa(acc, spec, L, scheme='s'):
+def check_dfa(acc, spec, L, scheme='s', morph=False):
     from gambatools.dfa_algorithms import dfa_accepts_word
     rp = {'fn': 'mc.props.c01:one_dfa', 'mode': 'plain', 'params': {'spec': spec, 'L': L, 'scheme': scheme}}
+    if morph:
+        rp = {'fn': 'mc.props.c01:one_morph', 'mode': 'plain', 'params': {'kind': 'dfa', 'prev': acc.data.get('prev_dfa'), 'spec': spec, 'L': L}}
+        acc.data['prev_dfa'] = spec
     Q, Sg, delta, q0, F = spaces.dfa_parts(spec, scheme)
-    ok, D = core.lib_call(acc, 'DFA()', spec, spaces.build_dfa, spec, scheme, repro=rp)
+    ok, D = core.lib_call(acc, 'DFA()', spec, spaces.morph_dfa if morph else spaces.build_dfa, spec, scheme, repro=rp)
     if not ok:
         return
     A = fa.from_dfa_parts(Q, Sg, delta, q0, F)
@@ -35,20 +38,24 @@ def check_dfa(acc, spec, L, scheme='s'):
         nw += 1
         nacc += exp
         if got is not exp:
-            acc.viol('dfa_accepts_word', 'verdict differs from existence of an accepting run', {'dfa': spec, 'scheme': scheme, 'word': w}, repro=rp, observed=got, expected=exp)
+            acc.viol('dfa_accepts_word', 'verdict differs from existence of an accepting run' + (' (object rewritten in place after earlier queries)' if morph else ''), {'dfa': spec, 'scheme': scheme, 'word': w}, repro=rp, observed=got, expected=exp)
     if 0 < nacc < nw:
         acc.nontrivial += 1
         if spec[1] >= 2:
             acc.sample({'kind': 'DFA', 'Q': Q, 'Sigma': Sg, 'delta': ['{},{}->{}'.format(q, a, r) for (q, a), r in delta.items()], 'q0': q0, 'F': F, 'words_up_to': L, 'accepted_words': nacc, 'tested_words': nw})
 
 
-def check_nfa(acc, spec, L, scheme='s', eps='', enc='sparse', closures=True):
+def check_nfa(acc, spec, L, scheme='s', eps='', enc='sparse', closures=True, morph=False):
     from gambatools.nfa_algorithms import nfa_accepts_word, epsilon_closure
     params = {'spec': spec, 'L': L, 'scheme': scheme, 'eps': eps, 'enc': enc, 'closures': closures}
     rp = {'fn': 'mc.props.c01:one_nfa', 'mode': 'plain', 'params': params}
     inst = {'nfa': spec, 'scheme': scheme, 'eps': eps, 'enc': enc}
+    if morph:
+        rp = {'fn': 'mc.props.c01:one_morph', 'mode': 'plain', 'params': {'kind': 'nfa', 'prev': acc.data.get('prev_nfa'), 'spec': spec, 'L': L}}
+        acc.data['prev_nfa'] = spec
+        inst['presented_as'] = 'one live object rewritten in place after earlier queries'
     Q, Sg, T, q0, F = spaces.nfa_parts(spec, scheme, eps)
-    ok, N = core.lib_call(acc, 'NFA()', inst, spaces.build_nfa, spec, scheme, eps, enc, repro=rp)
+    ok, N = core.lib_call(acc, 'NFA()', inst, spaces.morph_nfa if morph else spaces.build_nfa, spec, scheme, eps, enc, repro=rp)
     if not ok:
         return
     A = fa.from_parts(Q, Sg, T, q0, F, eps)
@@ -103,6 +110,33 @@ def one_nfa(acc, spec, L, scheme='s', eps='', enc='sparse', closures=True):
     check_nfa(acc, spec, L, scheme, eps, enc, closures)
 
 
+def one_morph(acc, kind, prev, spec, L):
+    """Replay of a morphing counterexample: the previous instance is queried first, then the object is rewritten."""
+    def tup(x):
+        return tuple(tup(y) for y in x) if isinstance(x, list) else x
+    spaces._LIVE.clear()
+    for s_ in (prev, spec):
+        if s_ is None:
+            continue
+        if kind == 'dfa':
+            check_dfa(acc, tup(s_), L, morph=True)
+        else:
+            check_nfa(acc, tup(s_), L, morph=True)
+    acc.data.clear()
+
+
+def t_morph(acc, kind, space, L, shard, nshard):
+    spaces._LIVE.clear()
+    if kind == 'dfa':
+        for idx in range(shard, spaces.dfa_size(*space), nshard):
+            check_dfa(acc, spaces.dfa_spec(space[0], space[1], idx), L, morph=True)
+    else:
+        for idx, spec in spaces.shard(_nfa_space(space), shard, nshard):
+            check_nfa(acc, spec, L, closures=True, morph=True)
+    acc.data.clear()
+    acc.c['instances_presented_by_rewriting_one_live_object'] += acc.states
+
+
 # ------------------------------------------------------------------ tasks
 def t_dfa(acc, n, k, L, shard, nshard, scheme='s'):
     for idx in range(shard, spaces.dfa_size(n, k), nshard):
@@ -143,6 +177,12 @@ def plan(tier, seed):
             tasks.append(('plain', 'mc.props.c01:t_nfa', {'space': space, 'L': L, 'shard': s, 'nshard': nshard, 'variants': variants, 'closures': closures}))
 
     bounds = {}
+    tasks.append(('plain', 'mc.props.c01:t_morph', {'kind': 'dfa', 'space': [2, 2], 'L': 4, 'shard': 0, 'nshard': 1}))
+    tasks.append(('plain', 'mc.props.c01:t_morph', {'kind': 'dfa', 'space': [3, 1], 'L': 4, 'shard': 0, 'nshard': 1}))
+    for s_ in range(4):
+        tasks.append(('plain', 'mc.props.c01:t_morph', {'kind': 'nfa', 'space': ('nfa', 2, 1, None, False), 'L': 3, 'shard': s_, 'nshard': 4}))
+        tasks.append(('plain', 'mc.props.c01:t_morph', {'kind': 'nfa', 'space': ('nfa', 2, 2, 3, False), 'L': 3, 'shard': s_, 'nshard': 4}))
+        tasks.append(('plain', 'mc.props.c01:t_morph', {'kind': 'nfa', 'space': ('nfa', 3, 1, 3, False), 'L': 3, 'shard': s_, 'nshard': 4}))
     for (n, k) in ((1, 0), (2, 0), (1, 1), (1, 2), (2, 1), (2, 2)):
         dfa(n, k, 8)
     dfa(3, 1, 6)
@@ -174,5 +214,6 @@ def plan(tier, seed):
         'bounds': bounds,
         'exhaustive': True,
         'assumptions': ['NFA delta is a total function into P(Q): defaultdict or a dict defined on all of Q x (Sigma+eps) (doc/main.tex)',
-                        'single-character symbols; epsilon spelled \'\', _ or ε'],
+                        'single-character symbols; epsilon spelled \'\', _ or ε',
+                        'small spaces are presented a second time through ONE live object whose fields are rewritten in place between instances (detects per-object caches)'],
     }
